@@ -728,7 +728,9 @@ func loadGlobalErr(fr *frame, pkg, name string) value {
 // external" by a path that runs without that stub set.
 var stubbable = map[string]bool{}
 
-func inAnyStubSet(name string) bool { return stubbable[name] }
+func inAnyStubSet(name string) bool {
+	return stubbable[name] || name == "strconv.ParseFloat" || name == "strconv.ParseInt"
+}
 
 func init() {
 	for _, set := range stubSets {
